@@ -73,10 +73,10 @@ theorem lookup_base_none {es : Entries} {base : Key} (hwfe : WFEntries es) :
   simp at this
 
 mutual
-  theorem getNode_spec : ∀ (n : Node) (path key : Key), WFNode n →
+  theorem getNode_spec : ∀ (n : Node) (path key : Key), WFNode n → NoSingleFF n.entries →
       getNode n key = lookup (path ++ key) (iterNode path n)
-    | .mk pfx .nil, path, key, hwf => by simp [WFNode, WFRow] at hwf
-    | .mk pfx (.leaf l suf v r), path, key, hwf => by
+    | .mk pfx .nil, path, key, hwf, _ => by simp [WFNode, WFRow] at hwf
+    | .mk pfx (.leaf l suf v r), path, key, hwf, hnoff => by
       unfold WFNode WFRow at hwf
       rw [getNode]
       simp only [iterNode]
@@ -88,10 +88,17 @@ mutual
         cases rem with
         | nil =>
           simp only [List.append_nil]
-          rcases hwf with ⟨hl, hsuf, hnil, hr⟩ | ⟨hnot, hle, habove, hr⟩
+          rcases hwf with ⟨hl, hsuf, hnil, hr⟩ | ⟨hle, habove, hr⟩
           · subst hl hsuf
             simp [iterEntries, hnil, labelTerminator, lookup]
           · have hwfe : WFEntries (.leaf l suf v r) := by unfold WFEntries; exact ⟨hle, habove, hr⟩
+            have hnot : ¬(l = 255 ∧ suf = []) := by
+              rintro ⟨rfl, rfl⟩
+              have := WFEntries.ff_last hr habove rfl
+              cases r with
+              | nil => exact hnoff v rfl
+              | leaf _ _ _ _ => simp [Entries.isNil] at this
+              | child _ _ _ => simp [Entries.isNil] at this
             rw [lookup_base_none hwfe]
             by_cases h1 : l = 255
             · have h2 : suf ≠ [] := fun h2 => hnot ⟨h1, h2⟩
@@ -103,7 +110,7 @@ mutual
           have hT : path ++ (pfx ++ c :: rest) = (path ++ pfx) ++ c :: rest := by simp
           rw [hT]
           simp only
-          rcases hwf with ⟨hl, hsuf, hnil, hr⟩ | ⟨hnot, hle, habove, hr⟩
+          rcases hwf with ⟨hl, hsuf, hnil, hr⟩ | ⟨hle, habove, hr⟩
           · subst hl hsuf
             simp only [labelTerminator, beq_self_eq_true, hnil, Bool.not_false, Bool.and_self, if_true,
               iterEntries, List.append_nil]
@@ -121,7 +128,7 @@ mutual
             rw [← getEntries_spec (.leaf l suf v r) (path ++ pfx) c rest hwfe]
             simp only [hcond, getEntries]
             simp
-    | .mk pfx (.child l n r), path, key, hwf => by
+    | .mk pfx (.child l n r), path, key, hwf, _ => by
       unfold WFNode WFRow at hwf
       have hwfe : WFEntries (.child l n r) := by unfold WFEntries; exact hwf
       rw [getNode]
@@ -185,7 +192,7 @@ mutual
       by_cases hlc : l = c
       · subst hlc
         have hT : base ++ l :: rest = (base ++ [l]) ++ rest := by simp
-        rw [hT, ← getNode_spec n (base ++ [l]) rest hn]
+        rw [hT, ← getNode_spec n (base ++ [l]) rest hn (noSingleFF_of_length hlen)]
         simp only [beq_self_eq_true, if_true]
         cases hg : getNode n rest with
         | some v => rfl
